@@ -950,6 +950,43 @@ def zc_fixed_episodes(g, kinds):
         g.emit("zkill %s" % m)
         ep.check()
         ep.dropall()
+        # (e) a view over eight chunks; a range removal (and an in-place difference) that trims its first and last chunk and drops 1, 2
+        #     or 3 whole chunks in between — the bookkeeping arrays slide down —, then an edit of EVERY surviving chunk where it lies
+        for dropped in (1, 2, 3):
+            for how in ("remr", "iandnot", "flip"):
+                for cont in ("A:5,9,300,40000", "B:32768:5555555555555555*1024", "R:100+50,1000+200"):
+                    ep = A(g)
+                    ep.frozen = kind == "frozen"
+                    x, m, v = g.fresh("s"), g.fresh("m"), g.fresh("v")
+                    ks = list(range(3, 11))
+                    g.emit("mkrepr %s cow=0;%s" % (x, ";".join("%d:%s" % (k, cont) for k in ks)))
+                    ep.define(x, ks)
+                    g.emit("%s %s %s" % (zmk, m, x))
+                    g.emit("zrd %s %s %s" % (v, kind, m))
+                    ep.define(v, ks, [m]); ep.views.add(v)
+                    a, b = 4 * CH + 200, (5 + dropped) * CH + 1100
+                    if how == "remr":
+                        g.emit("remr %s %d %d" % (v, a, b))
+                    elif how == "flip":
+                        o = g.fresh("o")
+                        g.emit("new %s" % o); g.emit("addr %s %d %d" % (o, 5 * CH, (5 + dropped) * CH)); ep.define(o, ks)
+                        g.emit("ixor %s %s" % (v, o))          # cancels nothing, fills: then the removal below drops the filled chunks
+                        g.emit("remr %s %d %d" % (v, a, b))
+                    else:
+                        o = g.fresh("o")
+                        g.emit("new %s" % o); g.emit("addr %s %d %d" % (o, a, b)); ep.define(o, ks)
+                        g.emit("iandnot %s %s" % (v, o))
+                    g.emit("zsame %s" % m); ep.check()
+                    for k in ks:
+                        g.emit("rem %s %d" % (v, k * CH + 300)); g.emit("add %s %d" % (v, k * CH + 301)); g.emit("rem %s %d" % (v, k * CH + 1001))
+                        g.emit("addr %s %d %d" % (v, k * CH + 149, k * CH + 152))
+                        g.emit("zsame %s" % m)
+                    ep.check()
+                    g.emit("zdetach %s" % v)
+                    g.emit("zkill %s" % m)
+                    ep.check()
+                    ep.dropall()
+            g.count("zc:fixed-range-removal-slides-tail")
         if kind == "frozen":
             continue
         # (b)
